@@ -28,4 +28,32 @@ PROPS = {
         "floors": {"quick": {"evaluations": 150000, "distinct_nontrivial": 40000}},
         "assumptions": COMMON_ASSUMPTIONS,
     },
+    "C02": {
+        "rule": ("random: type-directed filters over arrays/maps nested to depth 3 with [n]/[\"key\"]/[*] paths "
+                 "(indexes 0,1,2,3,5,2^31,2^32-1; keys present/absent/empty/non-ASCII), element-wise not/and/or/xor, "
+                 "any()/all() over logical arguments and over boolean-array values, x 5 random contexts (empty, "
+                 "singleton, ragged, absent containers); values: [*]-free value expressions x 4 contexts. "
+                 "Non-trivial = some [*] path evaluated to >=2 elements or some path has >=2 index steps (values: "
+                 ">=2 steps or a present indexed value); distinct by hash of (canonical text, context)."),
+        "quick": [st("rel")],
+        "thorough": [st("rel"), st("dbg"), st("asan")],
+        "floors": {"quick": {"evaluations": 60000, "distinct_nontrivial": 20000,
+                             "evals_with_ragged_operands": 1000}},
+        "assumptions": COMMON_ASSUMPTIONS,
+    },
+    "C03": {
+        "rule": ("random: filters whose comparisons / quantifier arguments / call arguments contain calls of the "
+                 "harness function family (identity, len, upper, sum with 2 optional parameters, head, tally, "
+                 "keepeven (absent on odd), neg, glue (field-only + literal-only + optional), built-in concat, "
+                 "tag (definition context)), plain and mapped over arrays and maps, nested to depth 3, every call "
+                 "site under its own function name; values: value expressions with a call at the base; ctx: calls "
+                 "of the context-carrying definition with 1..3 arguments, nested and mapped. Observed: the "
+                 "(site, arguments, result) log written by the functions and the definition-context event log. "
+                 "Non-trivial = at least one call was evaluated; distinct by hash of (canonical text, context)."),
+        "quick": [st("rel")],
+        "thorough": [st("rel"), st("dbg"), st("asan")],
+        "floors": {"quick": {"evaluations": 30000, "distinct_nontrivial": 15000, "calls_observed": 30000,
+                             "ctx_events": 10000}},
+        "assumptions": COMMON_ASSUMPTIONS,
+    },
 }
